@@ -94,6 +94,8 @@ def applyOp (s : Sys) (ws : List String) : Option Sys :=
   | ["upgrade", h] => h.toNat?.bind fun h => step? s (.upgrade h)
   | ["alive", h] => h.toNat?.bind fun h => step? s (.probeAlive h)
   | ["gate"] => if blockedAtGate s then step? s .gate else some s
+  -- a permit nobody is waiting for yet: the next hook that reaches its gate does not suspend
+  | ["pregate"] => step? s .gate
   | ["tick"] => some s
   | _ => none
 
